@@ -291,7 +291,8 @@ type word struct {
 type snode struct {
 	kind   byte // A, O (group) or W (clause)
 	gap    string
-	pgap   string // optional gap next to parentheses (may be empty)
+	pgap   string // optional gap inside the parentheses (may be empty)
+	ngap   string // optional gap between "not" and "(" (may be empty)
 	neg    int    // group: 0/1; clause: 0 none, 1 `key not op`, 2 `not key op`
 	kids   []*snode
 	key    word
@@ -371,7 +372,7 @@ func (n *snode) spec() string {
 	for i, k := range n.kids {
 		ks[i] = k.spec()
 	}
-	return fmt.Sprintf("%c(%s,%s,%d)[%s]", n.kind, gapSpec(n.gap), gapSpec(n.pgap), n.neg, strings.Join(ks, ";"))
+	return fmt.Sprintf("%c(%s,%s,%s,%d)[%s]", n.kind, gapSpec(n.gap), gapSpec(n.pgap), gapSpec(n.ngap), n.neg, strings.Join(ks, ";"))
 }
 
 func (n *snode) members() string {
@@ -403,7 +404,7 @@ func (n *snode) render() string {
 	}
 	s := "(" + n.pgap + n.members() + n.pgap + ")"
 	if n.neg == 1 {
-		s = "not" + n.pgap + s
+		s = "not" + n.ngap + s
 	}
 	return s
 }
@@ -421,6 +422,9 @@ func (p *sp) snode() (*snode, bool) {
 			return nil, false
 		}
 		if n.pgap, ok = gapOf(p.until(",")); !ok || !p.eat(',') {
+			return nil, false
+		}
+		if n.ngap, ok = gapOf(p.until(",")); !ok || !p.eat(',') {
 			return nil, false
 		}
 		neg, err := strconv.Atoi(p.until(")"))
